@@ -58,6 +58,7 @@ func checkC04(ctx *Ctx, r *Report) {
 	c04PathInvariant(ctx, r)
 	c04NilGuardedMembers(ctx, r, eng)
 	cfgNilEntries(ctx, r)
+	c04ConfigTypesValidated(ctx, r)
 }
 
 // ---------------------------------------------------------------------------
@@ -303,6 +304,42 @@ func c04RecursionGuard(info *types.Info, fd *ast.FuncDecl, parents map[ast.Node]
 		if !exits {
 			return true
 		}
+		// the test must be on the way to the call: the statement list holding it also holds (a statement holding)
+		// the call, and leaving a loop only counts when the call sits in that loop too
+		onTheWay := true
+		for q := parents[ast.Node(is)]; q != nil && !containsNode(q, call); q = parents[q] {
+			switch b := q.(type) {
+			case *ast.BlockStmt:
+				// a block that always returns never falls through to the call
+				if len(b.List) > 0 {
+					if _, returns := b.List[len(b.List)-1].(*ast.ReturnStmt); returns {
+						onTheWay = false
+					}
+				}
+			case *ast.FuncLit:
+				onTheWay = false
+			}
+		}
+		if !onTheWay {
+			return true
+		}
+		if br, ok := is.Body.List[len(is.Body.List)-1].(*ast.BranchStmt); ok && br.Label == nil {
+			var loop ast.Node
+			for q := parents[ast.Node(is)]; q != nil && loop == nil; q = parents[q] {
+				switch q.(type) {
+				case *ast.ForStmt, *ast.RangeStmt:
+					loop = q
+				case *ast.FuncLit:
+					q = nil
+				}
+				if q == nil {
+					break
+				}
+			}
+			if loop == nil || !containsNode(loop, call) {
+				return true
+			}
+		}
 		// membership test: `_, seen := m[k]; seen` / m.Has(k) / m[k] — on a container this function also fills before recursing
 		isMember := false
 		check := func(e ast.Node) {
@@ -431,8 +468,8 @@ var c04PanicExemptions = map[string]string{
 var c04RecursionExemptions = map[string]string{
 	"internal/jennies/typescript.RawTypes.defaultValueForStructs → defaultValueForStructs(fieldType.AsStruct())": "each call consumes one nesting level of the (finite) default value: the recursion only continues while the value given for the field is itself an object",
 	"internal/veneers.EnvelopeFieldValue.AsIR → AsIR(path)":                                                      "the recursion walks the (finite) veneers configuration value: AssignmentValue → Envelope → values; `path` is only the target path of that value",
-	"internal/jennies/php.defaultValueForType → defaultValueForType(fieldOverrides)":                             "each call consumes one nesting level of the (finite) default-value object it was given",
-	"internal/jennies/python.defaultValueForType → defaultValueForType(fieldOverrides)":                          "each call consumes one nesting level of the (finite) default-value object it was given",
+	"internal/jennies/php.defaultValueForTypeRec → defaultValueForType(fieldOverrides)":                          "each call consumes one nesting level of the (finite) default-value object it was given",
+	"internal/jennies/python.defaultValueForTypeRec → defaultValueForType(fieldOverrides)":                       "each call consumes one nesting level of the (finite) default-value object it was given",
 	"internal/jennies/java.RawTypes.formatReferenceDefaults → genDefaultForType(v)":                              "each call consumes one nesting level of the (finite) default value `v` it was given: the recursion only continues while that value is a map holding an entry for the field",
 	"internal/jennies/golang.typeFormatter.formatField → doFormatType(fieldType)":                                "fieldType is either the field's own type (structural recursion) or, under IsConcreteScalar, a scalar leaf",
 }
@@ -581,8 +618,17 @@ func c04Assertions(ctx *Ctx, r *Report) {
 					}
 					// if _, ok := X.(T); ok { … ta … }   or   if _, ok := X.(T); !ok { return }
 					if as, ok := x.Init.(*ast.AssignStmt); ok && len(as.Rhs) == 1 {
-						if t2, ok := ast.Unparen(as.Rhs[0]).(*ast.TypeAssertExpr); ok && sameAccessPath(info, t2.X, ta.X) && t2.Type != nil && types.Identical(info.TypeOf(t2.Type), info.TypeOf(ta.Type)) {
-							guarded = "dominated by a comma-ok assertion of the same expression to the same type"
+						if t2, ok := ast.Unparen(as.Rhs[0]).(*ast.TypeAssertExpr); ok && len(as.Lhs) == 2 && sameAccessPath(info, t2.X, ta.X) && t2.Type != nil && types.Identical(info.TypeOf(t2.Type), info.TypeOf(ta.Type)) {
+							// polarity: `ok` for the body form, `!ok` for the early-exit form
+							okID, _ := as.Lhs[1].(*ast.Ident)
+							cond := ast.Unparen(x.Cond)
+							negated := false
+							if u, isNot := cond.(*ast.UnaryExpr); isNot && u.Op == token.NOT {
+								negated, cond = true, ast.Unparen(u.X)
+							}
+							if okID != nil && isIdentOf(info, cond, objOf(info, okID)) && negated == !containsNode(x.Body, ta) {
+								guarded = "dominated by a comma-ok assertion of the same expression to the same type"
+							}
 						}
 					}
 				case *ast.AssignStmt:
@@ -601,8 +647,9 @@ func c04Assertions(ctx *Ctx, r *Report) {
 						}
 					}
 				case *ast.TypeSwitchStmt:
-					if containsNode(x.Body, ta) {
-						guarded = "inside a type switch"
+					// only a switch on the very expression asserted, in a clause that lists the asserted type alone
+					if containsNode(x.Body, ta) && typeSwitchCovers(info, x, ta) {
+						guarded = "inside the clause of a type switch on the same expression that lists the asserted type"
 					}
 				}
 				return true
@@ -2074,4 +2121,52 @@ func c04Fixpoints(ctx *Ctx, r *Report) {
 		})
 	})
 	r.Count("fixpoint loops", n)
+}
+
+// typeSwitchCovers: ta sits in a clause of `switch [v :=] X.(type)` where X is ta.X (or ta.X is the bound
+// variable) and every type listed by the clause is identical to the asserted one.
+func typeSwitchCovers(info *types.Info, sw *ast.TypeSwitchStmt, ta *ast.TypeAssertExpr) bool {
+	var subject ast.Expr
+	var bound types.Object
+	switch a := sw.Assign.(type) {
+	case *ast.ExprStmt:
+		if t, ok := ast.Unparen(a.X).(*ast.TypeAssertExpr); ok {
+			subject = t.X
+		}
+	case *ast.AssignStmt:
+		if len(a.Rhs) == 1 {
+			if t, ok := ast.Unparen(a.Rhs[0]).(*ast.TypeAssertExpr); ok {
+				subject = t.X
+			}
+		}
+	}
+	if subject == nil {
+		return false
+	}
+	for _, st := range sw.Body.List {
+		cc, ok := st.(*ast.CaseClause)
+		if !ok || !containsNode(cc, ta) {
+			continue
+		}
+		if a, ok := sw.Assign.(*ast.AssignStmt); ok && len(a.Lhs) == 1 {
+			bound = info.Implicits[cc]
+		}
+		same := sameAccessPath(info, subject, ta.X)
+		if !same && bound != nil {
+			if id, ok := ast.Unparen(ta.X).(*ast.Ident); ok && info.Uses[id] == bound {
+				same = true
+			}
+		}
+		if !same || len(cc.List) == 0 {
+			return false
+		}
+		want := info.TypeOf(ta.Type)
+		for _, e := range cc.List {
+			if t := info.TypeOf(e); t == nil || !types.Identical(t, want) {
+				return false
+			}
+		}
+		return true
+	}
+	return false
 }
